@@ -368,7 +368,7 @@ func runC07(tier string) int {
 		"a moved word 'does not fit' when previous line + space + word (+ overlap when the line would show the prompt and anything follows the word) exceeds maxLineLength",
 		"the word/break sequence of a text is known from the generator's atoms; the compiler's own tokeniser is not consulted")
 	return r.Finish(r.Get("evaluations"), r.Get("nontrivial"),
-		"every sequence of <= L atoms (3 plain words, a multi-byte word, 2 control codes incl. one with an inner space, single/double space, \\n \\l \\p \\N, a raw newline) x 2 synthetic fonts (with/without default width, space width 1 and 3) x numLines 1..3 x cursorOverlap {0,1,3,40} x every maxLineLength from 1 to longest line+1, called through the exported FormatText; plus words containing one representative of every Unicode category / non-ASCII white space / combining mark / astral rune / non-ASCII rune of the compiler's source in sequences of <= 3 atoms; plus long texts of K atoms for every K up to the bound in the coverage (3 patterns); plus a cross-product of format() spellings compiled end to end; non-trivial = the output contains >= 1 automatic break")
+		"every sequence of <= L atoms (3 plain words, a multi-byte word, 2 control codes incl. one with an inner space, single/double space, \\n \\l \\p \\N, a raw newline) x 2 synthetic fonts (with/without default width, space width 1 and 3) x numLines 1..3 x cursorOverlap {0,1,3,40} x every maxLineLength from 1 to longest line+1, called through the exported FormatText; plus words containing one representative of every Unicode category / non-ASCII white space / combining mark / astral rune / non-ASCII rune of the compiler's source in sequences of <= 3 atoms; plus long texts of K atoms for every K up to the bound in the coverage (3 patterns); plus a cross-product of format() spellings compiled end to end under 3 font config files (numLines missing, different defaults, a third font); non-trivial = the output contains >= 1 automatic break")
 }
 
 // c07EvalSeq makes every call for one atom sequence and judges each result.
@@ -461,12 +461,30 @@ func c07Compiled(r *harness.Run) {
 		return
 	}
 	defer os.RemoveAll(dir)
-	cfg := parser.FontConfig{DefaultFontID: "f1", Fonts: map[string]parser.Fonts{
-		"f1": {Widths: synthFonts[0].widths, MaxLineLength: 9, NumLines: 2, CursorOverlapWidth: 1},
-		"f2": {Widths: synthFonts[1].widths, MaxLineLength: 14, NumLines: 3, CursorOverlapWidth: 0},
-	}}
+	// font config contents: the documented defaults come from the font entry (numLines missing -> 2)
+	cfgs := []parser.FontConfig{
+		{DefaultFontID: "f1", Fonts: map[string]parser.Fonts{
+			"f1": {Widths: synthFonts[0].widths, MaxLineLength: 9, NumLines: 2, CursorOverlapWidth: 1},
+			"f2": {Widths: synthFonts[1].widths, MaxLineLength: 14, NumLines: 3, CursorOverlapWidth: 0},
+		}},
+		{DefaultFontID: "f2", Fonts: map[string]parser.Fonts{
+			"f1": {Widths: synthFonts[0].widths, MaxLineLength: 12, NumLines: 0, CursorOverlapWidth: 0},
+			"f2": {Widths: synthFonts[1].widths, MaxLineLength: 8, NumLines: 1, CursorOverlapWidth: 4},
+		}},
+		{DefaultFontID: "f1", Fonts: map[string]parser.Fonts{
+			"f1": {Widths: synthFonts[0].widths, MaxLineLength: 7, NumLines: 4, CursorOverlapWidth: 6},
+			"f2": {Widths: synthFonts[1].widths, MaxLineLength: 30, NumLines: 2, CursorOverlapWidth: 2},
+			"f3": {Widths: map[string]int{"default": 1}, MaxLineLength: 3, NumLines: 2},
+		}},
+	}
+	for ci := range cfgs {
+		c07CompiledWith(r, dir, ci, cfgs[ci])
+	}
+}
+
+func c07CompiledWith(r *harness.Run, dir string, ci int, cfg parser.FontConfig) {
 	b, _ := json.Marshal(cfg)
-	fpath := filepath.Join(dir, "fonts.json")
+	fpath := filepath.Join(dir, fmt.Sprintf("fonts%d.json", ci))
 	os.WriteFile(fpath, b, 0o644)
 	text := `a bb cac é {P} a\pbb cac a bb\Ncac a bb`
 	type spelling struct {
@@ -515,6 +533,9 @@ func c07Compiled(r *harness.Run) {
 					if nl == 0 {
 						nl = cfg.Fonts[font].NumLines
 					}
+					if nl <= 0 {
+						nl = 2 // documented default when the font entry has no numLines
+					}
 					ov := s.overlap
 					if ov == 0 {
 						ov = cfg.Fonts[font].CursorOverlapWidth
@@ -547,7 +568,7 @@ func c07Compiled(r *harness.Run) {
 					}
 					if got != strings.Join(wantLines, "\n") {
 						r.Report(harness.Violation{Sig: "C07:compiled-differs:" + origin, Summary: fmt.Sprintf("format(%s) default font %q default length %d: emitted\n%s\nwant (FormatText with font=%s maxLineLength=%d numLines=%d overlap=%d)\n%s", s.args, defFont, defLen, got, font, ml, nl, ov, strings.Join(wantLines, "\n")),
-							Replay: map[string]interface{}{"source": src, "font_config": cfg, "default_font": defFont, "default_length": defLen}})
+							Replay: map[string]interface{}{"source": src, "font_config": cfg, "default_font": defFont, "default_length": defLen, "font_config_variant": ci}})
 					}
 				}
 			}
@@ -578,7 +599,11 @@ func c07Compiled(r *harness.Run) {
 			for k, q := range []fp{a, bb} {
 				var fresh parser.FontConfig // a fresh, unshared configuration
 				json.Unmarshal(b, &fresh)
-				want, _ := fresh.FormatText(text2, q.ml, cfg.Fonts[q.font].CursorOverlapWidth, q.font, cfg.Fonts[q.font].NumLines)
+				nl := cfg.Fonts[q.font].NumLines
+				if nl <= 0 {
+					nl = 2 // documented default when the font entry has no numLines
+				}
+				want, _ := fresh.FormatText(text2, q.ml, cfg.Fonts[q.font].CursorOverlapWidth, q.font, nl)
 				var wantLines []string
 				for _, l := range strings.Split(want+"$", "\n") {
 					wantLines = append(wantLines, "\t.string \""+l+"\"")
